@@ -116,15 +116,21 @@ func cliArgv(in Input, st StepIn, salt int) []string {
 			return nil
 		}
 	}
+	// a boolean switch may be written bare or with any value strconv.ParseBool accepts, and a
+	// switch that is off may be written out as off
+	onForms := []string{"", "", "", "=true", "=1", "=t", "=T", "=TRUE", "=True"}
+	offForms := []string{"=false", "=0", "=f", "=F", "=FALSE", "=False"}
 	var sw []string
-	if st.Env.Pretend {
-		sw = append(sw, "-p")
-	}
-	if st.Env.Force {
-		sw = append(sw, "-force")
-	}
-	if st.Env.Verbose {
-		sw = append(sw, "-v")
+	for i, x := range []struct {
+		name string
+		on   bool
+	}{{"p", st.Env.Pretend}, {"force", st.Env.Force}, {"v", st.Env.Verbose}} {
+		k := salt*7 + i*3
+		if x.on {
+			sw = append(sw, "-"+x.name+onForms[k%len(onForms)])
+		} else if k%11 == 0 {
+			sw = append(sw, "-"+x.name+offForms[k%len(offForms)])
+		}
 	}
 	argv := []string{"-basepath", cfg.Base}
 	if in.Conf != "" {
